@@ -596,11 +596,22 @@ func c02r6(c *Ctx, id string) {
 	ld := w.Method("metadata", "readMetadata", "Load")
 	c.need(ld != nil, id, "metadata.readMetadata.Load")
 	c.see(ld)
+	// the wrapped store: the wrapper's one field of the Metadata interface type (whatever it is called)
+	inner := "metadata"
+	if rt := w.NamedType("metadata", "readMetadata"); rt != nil {
+		if st, ok := rt.Underlying().(*types.Struct); ok {
+			for i := 0; i < st.NumFields(); i++ {
+				if strings.HasSuffix(types.TypeString(st.Field(i).Type(), nil), "metadata.Metadata") {
+					inner = st.Field(i).Name()
+				}
+			}
+		}
+	}
 	okLoad := false
 	allInstrs(ld, func(in ssa.Instruction) {
 		if r, ok := in.(*ssa.Return); ok && len(r.Results) == 3 {
 			o := w.Origin(r.Results[0])
-			want := "call(recv.metadata.Load)(param(vbIds), param(bucketUUID))#0"
+			want := "call(recv." + inner + ".Load)(param(" + ld.Params[1].Name() + "), param(" + ld.Params[2].Name() + "))#0"
 			if o == want && w.Origin(r.Results[1]) == strings.TrimSuffix(want, "0")+"1" && w.Origin(r.Results[2]) == strings.TrimSuffix(want, "0")+"2" {
 				okLoad = true
 			}
@@ -612,7 +623,7 @@ func c02r6(c *Ctx, id string) {
 	c.need(nr != nil, id, "metadata.NewReadMetadata")
 	for _, a := range allocsOf(nr, w.NamedType("metadata", "readMetadata")) {
 		t, _ := allocTable(a)
-		got := w.Origin(t["metadata"])
+		got := w.Origin(t[inner])
 		c.Check(got == "param("+nr.Params[0].Name()+")", id, "readonly:wraps", a.Pos(), "wraps "+got, "wraps "+got)
 	}
 	// Start wraps whenever ReadOnly
